@@ -256,6 +256,23 @@ where
     p
 }
 
+/// one word operation through the public entry point (`threads` <= 1: single-thread form) on freshly encrypted
+/// prepared operands; returns the decrypted result (used by C13's evaluator sub-check)
+pub fn hom_word(be: Be, name: &str, a: u32, b: u32, threads: usize, seed: u64) -> u32 {
+    fn go<B: FullBackend>(c: &TestContext<CGGI, B>, name: &str, a: u32, b: u32, threads: usize, seed: u64) -> u32
+    where
+        ScratchOwned<B>: ScratchOwnedAlloc<B> + ScratchOwnedBorrow<B>,
+    {
+        let mut scratch = pzv_be::dirty_scratch::<B>(1 << 24);
+        let a_p = encrypt_prepared(c, a, false, seed, &mut scratch);
+        let b_p = encrypt_prepared(c, b, false, seed ^ 0xB, &mut scratch);
+        let mut res: FheUint<Vec<u8>, u32> = FheUint::alloc_from_infos(&c.glwe_infos());
+        apply_op(c, name, &mut res, &a_p, &b_p, threads, &mut scratch);
+        res.decrypt(&c.module, &c.sk_glwe, scratch.borrow())
+    }
+    with_ctx!(be, |c| go(c, name, a, b, threads, seed))
+}
+
 fn word_run<B: FullBackend>(c: &TestContext<CGGI, B>, w: &WordCase) -> Verdict
 where
     ScratchOwned<B>: ScratchOwnedAlloc<B> + ScratchOwnedBorrow<B>,
